@@ -16,6 +16,8 @@ import struct
 # rendering
 def _fmt_num(x, width, digits, letter):
     s = "%*.*E" % (width, digits, x)
+    if len(s) != width:
+        raise ValueError("value %r does not fit the announced field width %d.%d (renderer must be given values that fit)" % (x, width, digits))
     if letter == "D":
         s = s.replace("E", "D")
     return s
@@ -80,7 +82,9 @@ def render_binary(blocks, endian="<", bit64=False):
         cplx = h["mtype"] in (3, 4)
         single = h["mtype"] in (1, 3) and not bit64
         rk = "f" if single else "d"
-        name = h["name"].upper().encode().ljust(16 if bit64 else 8)
+        nm8 = h["name"].upper().encode().ljust(8)
+        # 64-bit keys: the 8-character name occupies two 8-byte words, 4 characters + 4 blanks each
+        name = (nm8[:4] + b"    " + nm8[4:] + b"    ") if bit64 else nm8
         rec(struct.pack(E + "4" + ik, h["ncols"], h["nrows"], h["form"], h["mtype"]) + name)
 
         def numbers(vals):
@@ -151,7 +155,10 @@ def _tok_binary(data):
         if len(p) != (48 if bit64 else 24):
             raise FormatError("header record has %d bytes" % len(p))
         ncols, nrows, form, mtype = struct.unpack(E + "4" + ik, p[: 4 * ib])
-        name = p[4 * ib :].decode("latin-1").strip().lower()
+        raw = p[4 * ib :]
+        if bit64:
+            raw = raw[:4] + raw[8:12]
+        name = raw.decode("latin-1").strip().lower()
         cplx = mtype in (3, 4)
         single = mtype in (1, 3) and not bit64
         rk, rb = ("f", 4) if single else ("d", 8)
